@@ -77,6 +77,14 @@ def hosts_for(n, which):
             if n <= 9:
                 c, ops = arith.odd_label_host(n)
                 yield 'ODD', c, ops
+                c, ops = arith.live_host(n)
+                yield 'LIVE', c, ops
+                c, ops = arith.newlabel_host(n)
+                yield 'NEWL', c, ops
+            if 2 <= n <= 4:
+                for flip in (False, True):
+                    c, ops = arith.oriented_host(n, flip)
+                    yield f'ORI{int(flip)}', c, ops
         elif h.startswith('F'):
             q = int(h[1:])
             c, ops = folded_host(q, n)
@@ -112,7 +120,9 @@ def check_sum_n_bits(acc, n, basis, big_endian, htag, c, ops, via='add'):
     acc.transitions += 1
     before = arith.snapshot(c)
     try:
-        res = add_sum_n_bits(c, list(ops), basis=basis_val(basis), big_endian=big_endian)
+        ops_expected = list(ops)
+        res = add_sum_n_bits(c, ops if htag == 'LIVE' else list(ops), basis=basis_val(basis), big_endian=big_endian)
+        ops = ops_expected
     except Exception as e:  # noqa: BLE001
         acc.violation(f'add_sum_n_bits/raises-{type(e).__name__}', case, repr(e), feats)
         return
@@ -299,7 +309,9 @@ def check_pow2_m1(acc, n, basis, big_endian, htag, c, ops):
     acc.transitions += 1
     before = arith.snapshot(c)
     try:
-        res = add_sum_pow2_m1(c, list(ops), big_endian=big_endian, basis=basis_val(basis))
+        ops_expected = list(ops)
+        res = add_sum_pow2_m1(c, ops if htag == 'LIVE' else list(ops), big_endian=big_endian, basis=basis_val(basis))
+        ops = ops_expected
     except Exception as e:  # noqa: BLE001
         acc.violation(f'add_sum_pow2_m1/raises-{type(e).__name__}', case, repr(e), feats)
         return
